@@ -42,7 +42,7 @@ func (c06) Components() map[string]string {
 }
 func (c06) Budget(tier string) int {
 	if tier == "thorough" {
-		return 20000
+		return 120000
 	}
 	return 480
 }
@@ -645,6 +645,8 @@ func (p c06) Run(sc *Scenario) *Result {
 		return res
 	}
 	S, B := ref.ctx.Exec, ref.ctx.Calls
+	res.Mix(ref.ctx.Transcript()...)
+	res.Mix(outcome(ref.err), fmt.Sprint(S, B))
 	res.Count("ref_steps", int64(S))
 	res.Count("ref_host_calls", int64(B))
 	for k, v := range ref.ctx.Probes {
